@@ -37,30 +37,30 @@ Proof.
   - cbn [app]. econstructor; eauto. apply IHppath; auto.
     rewrite last_cons_ne in Hl; [exact Hl|eapply ppath_ne; eauto].
 Qed.
-Lemma ppath_interior P b l x : ppath p P b l -> In x (removelast l) -> P x.
+Lemma ppath_interior P b l : ppath p P b l -> forall x, In x (removelast l) -> P x.
 Proof.
-  induction 1; [intros []|].
+  induction 1; intros x; [intros []|].
   pose proof (ppath_ne _ _ _ H1) as Hne. destruct l as [|y r]; [congruence|].
   cbn [removelast]. intros [<-|Hx]; [exact H|]. apply IHppath. exact Hx.
 Qed.
-Lemma ppath_anc_last P b l x : ppath p P b l -> In x l -> x = last l 0 \/ anc p x (last l 0).
+Lemma ppath_anc_last P b l : ppath p P b l -> forall x, In x l -> x = last l 0 \/ anc p x (last l 0).
 Proof.
-  induction 1; intros Hx.
+  induction 1; intros x Hx.
   - destruct Hx as [<-|[]]. now left.
   - pose proof (ppath_ne _ _ _ H1) as Hne. rewrite last_cons_ne by exact Hne.
     destruct Hx as [<-|Hx].
     + right. destruct (ppath_hd _ _ _ H1) as (r & ->).
-      destruct (IHppath (or_introl eq_refl)) as [E|A].
+      destruct (IHppath b' (or_introl eq_refl)) as [E|A].
       * rewrite <- E. now apply anc_one.
       * eapply anc_step; eauto.
     + auto.
 Qed.
-Lemma ppath_from_anc P b l x : ppath p P b l -> In x l -> x = b \/ anc p b x.
+Lemma ppath_from_anc P b l : ppath p P b l -> forall x, In x l -> x = b \/ anc p b x.
 Proof.
-  induction 1; intros Hx.
+  induction 1; intros x Hx.
   - destruct Hx as [<-|[]]. now left.
   - destruct Hx as [<-|Hx]; [now left|]. right.
-    destruct (IHppath Hx) as [->|A]; [now apply anc_one|eapply anc_step; eauto].
+    destruct (IHppath x Hx) as [->|A]; [now apply anc_one|eapply anc_step; eauto].
 Qed.
 (* the element before the top *)
 Lemma ppath_before_last P b l : ppath p P b l -> P b ->
@@ -74,21 +74,101 @@ Proof.
     rewrite last_cons_ne by discriminate. exact Ec.
 Qed.
 (* consecutive elements are linked *)
-Lemma ppath_next P b l x : ppath p P b l -> In x (removelast l) ->
+Lemma ppath_next P b l : ppath p P b l -> forall x, In x (removelast l) ->
   exists y, dget x p = Some y /\ In y l.
 Proof.
-  induction 1; [intros []|].
+  induction 1; intros x; [intros []|].
   pose proof (ppath_hd _ _ _ H1) as (r & ->). cbn [removelast].
   intros [<-|Hx].
   - exists b'. split; [exact H0|]. right. now left.
-  - destruct (IHppath Hx) as (y & Ey & Hy). exists y. split; [exact Ey|now right].
+  - destruct (IHppath x Hx) as (y & Ey & Hy). exists y. split; [exact Ey|now right].
 Qed.
-Lemma ppath_split P b l x : ppath p P b l -> In x l -> exists l1 l2, l = l1 ++ x :: l2 /\ ppath p P x (x :: l2).
+Lemma ppath_split P b l : ppath p P b l -> forall x, In x l -> exists l1 l2, l = l1 ++ x :: l2 /\ ppath p P x (x :: l2).
 Proof.
-  induction 1; intros Hx.
+  induction 1; intros x Hx.
   - destruct Hx as [<-|[]]. exists [], []. split; [reflexivity|now constructor].
   - destruct Hx as [<-|Hx].
     + exists [], l. split; [reflexivity|]. econstructor; eauto.
-    + destruct (IHppath Hx) as (l1 & l2 & -> & Hp). exists (b :: l1), l2. split; [reflexivity|exact Hp].
+    + destruct (IHppath x Hx) as (l1 & l2 & -> & Hp). exists (b :: l1), l2. split; [reflexivity|exact Hp].
 Qed.
 End Paths.
+
+Lemma last_cons_shift {A} (x : A) l d : last (x :: l) d = last l x.
+Proof. destruct l; [reflexivity|]. rewrite last_cons_ne by discriminate. apply last_default. discriminate. Qed.
+
+Section Meld.
+Variable p : dict hash.
+Variable rk : hash -> nat.
+Hypothesis Hrk : ranked rk p.
+
+Definition known (x : hash) : Prop := dget x p <> None.
+Definition proc (new : list hash) (x : hash) : Prop := known x /\ ~ In x new.
+
+Fixpoint linked (cur : hash) (ws : list hash) : Prop :=
+  match ws with [] => True | w :: r => dget cur p = Some w /\ linked w r end.
+
+Definition trees_ok (cf : finder) : Prop :=
+  pl cf = p /\
+  forall k pre, dget k (tfb cf) = Some pre -> (exists r, pre = k :: r) /\ inset (dbt cf) (last pre 0) k.
+
+Definition no_tree (cf : finder) (w : hash) : Prop :=
+  match dget w (tfb cf) with Some (_ :: _) => False | _ => True end.
+
+Lemma walk_ok : forall f cur path new cf,
+  trees_ok cf -> (forall n t, steps p n cur t -> (n < f)%nat) ->
+  exists ws new',
+    linked cur ws /\ (forall w, In w ws -> no_tree cf w) /\
+    ((dget (last ws cur) p = None /\ (forall x, In x new' <-> In x new /\ ~ In x ws) /\
+       walk f cur path new cf = Ret (path ++ ws, new', cf)) \/
+     (exists k pre s, dget (last ws cur) p = Some k /\ dget k (tfb cf) = Some pre /\ pre <> [] /\
+        dget (last pre 0) (dbt cf) = Some s /\ (forall x, In x new' <-> In x new /\ ~ In x (ws ++ [k])) /\
+        walk f cur path new cf = Ret (path ++ ws ++ pre, new',
+           mkFinder p (dset (last pre 0) (sdiscard k s) (dbt cf)) (ddel k (tfb cf))))).
+Proof.
+  induction f as [|f IH]; intros cur path new cf TO Hfuel.
+  - exfalso. specialize (Hfuel 0%nat cur (st_0 p cur)). lia.
+  - destruct TO as [Epl TF]. cbn [walk]. rewrite Epl.
+    destruct (dget cur p) as [nxt|] eqn:Ec.
+    + assert (Hfuel' : forall n t, steps p n nxt t -> (n < f)%nat).
+      { intros n t Hs. assert (steps p (S n) cur t) by (econstructor; eauto). apply Hfuel in H. lia. }
+      destruct (dget nxt (tfb cf)) as [[|b0 r]|] eqn:Et.
+      * (* empty list stored: falsy, continue *)
+        destruct (IH nxt (path ++ [nxt]) (sdiscard nxt new) cf (conj Epl TF) Hfuel')
+          as (ws & new' & Hl & Hnt & Hres).
+        exists (nxt :: ws), new'. split; [cbn; auto|]. split.
+        { intros w [<-|Hw]; [unfold no_tree; now rewrite Et|auto]. }
+        rewrite last_cons_shift.
+        destruct Hres as [(En & Hm & Hw)|(k & pre & s & Ek & Etk & Hne & Es & Hm & Hw)].
+        -- left. split; [exact En|]. split.
+           ++ intros x. rewrite Hm, sdiscard_In. cbn. intuition congruence.
+           ++ rewrite Hw. now rewrite <- app_assoc.
+        -- right. exists k, pre, s. repeat (split; [assumption|]). split.
+           ++ intros x. rewrite Hm, sdiscard_In. cbn. intuition congruence.
+           ++ rewrite Hw. now rewrite <- app_assoc.
+      * (* absorb the tree that starts at nxt *)
+        destruct (TF _ _ Et) as ((r' & Er) & (s & Es & Hin)).
+        inversion Er; subst b0 r'. clear Er.
+        exists [], (sdiscard nxt new). split; [exact I|]. split; [intros w []|].
+        right. exists nxt, (nxt :: r), s. cbn [last app].
+        split; [exact Ec|]. split; [exact Et|]. split; [discriminate|].
+        assert (El : last (nxt :: r) nxt = last (nxt :: r) 0) by (apply last_default; discriminate).
+        split; [exact Es|]. split.
+        { intros x. rewrite sdiscard_In. cbn. intuition congruence. }
+        cbn [last] in El. rewrite El, Es.
+        apply mem_In in Hin. rewrite Hin. reflexivity.
+      * destruct (IH nxt (path ++ [nxt]) (sdiscard nxt new) cf (conj Epl TF) Hfuel')
+          as (ws & new' & Hl & Hnt & Hres).
+        exists (nxt :: ws), new'. split; [cbn; auto|]. split.
+        { intros w [<-|Hw]; [unfold no_tree; now rewrite Et|auto]. }
+        rewrite last_cons_shift.
+        destruct Hres as [(En & Hm & Hw)|(k & pre & s & Ek & Etk & Hne & Es & Hm & Hw)].
+        -- left. split; [exact En|]. split.
+           ++ intros x. rewrite Hm, sdiscard_In. cbn. intuition congruence.
+           ++ rewrite Hw. now rewrite <- app_assoc.
+        -- right. exists k, pre, s. repeat (split; [assumption|]). split.
+           ++ intros x. rewrite Hm, sdiscard_In. cbn. intuition congruence.
+           ++ rewrite Hw. now rewrite <- app_assoc.
+    + exists [], new. split; [exact I|]. split; [intros w []|].
+      left. cbn [last]. split; [exact Ec|]. split; [intros x; cbn; tauto|now rewrite app_nil_r].
+Qed.
+End Meld.
